@@ -506,9 +506,16 @@ fn main() {
     let space = LineSpace { parts: if thorough { vec![(1, 4), (2, 2), (3, 1)] } else { vec![(1, 3), (2, 2), (3, 1)] } };
 
     let mut st = Stats::default();
-    st.merge(cell_family(len));
+    let t0 = std::time::Instant::now();
+    if std::env::var("C26_ONLY").map_or(true, |v| v == "cell") {
+        st.merge(cell_family(len));
+    }
     let cell_items = st.n;
-    st.merge(line_family(&space));
+    let cell_wall = t0.elapsed().as_secs_f64();
+    if std::env::var("C26_ONLY").map_or(true, |v| v == "line") {
+        st.merge(line_family(&space));
+    }
+    eprintln!("cell {:.1}s line {:.1}s", cell_wall, t0.elapsed().as_secs_f64() - cell_wall);
 
     let samples = vec![
         json!({"family": "cell", "input_escaped": esc(&string_at(len, n_strings(len) / 3)), "width": 3, "delim": "…"}),
